@@ -32,7 +32,7 @@ package standard
 //@ requires s != nil
 //@ ensures [hit] result1 == nil ==> bytes(key) in db && bytes(result0) == db[bytes(key)] && fresh(result0)
 //@ ensures [miss] result1 != nil && errstr(result1) == "not found" ==> !(bytes(key) in db)
-//@ ensures [ok] store_ok ==> ((result1 == nil) <==> (bytes(key) in db)) && (result1 != nil ==> errstr(result1) == "not found")
+//@ ensures [ok] store_ok && len(key) > 0 ==> ((result1 == nil) <==> (bytes(key) in db)) && (result1 != nil ==> errstr(result1) == "not found")
 
 //@ func (*Store).Store
 //@ requires s != nil
@@ -217,3 +217,26 @@ package standard
 //@ invariant [range] 0 <= _n && _n <= len(res) && len(res) == len(req) && fresh(res)
 //@ invariant [noappr] forall j int :: 0 <= j && j < _n ==> res[j] == rules.FAILED
 //@ invariant [verd] forall j int :: 0 <= j && j < len(res) ==> res[j] == rules.APPROVED || res[j] == rules.DENIED || res[j] == rules.FAILED
+
+// ---- storage bodies, verified up to the badger calls (C03, C06) ----
+
+//@ func (*Store).Store$1
+//@ modifies db
+//@ ensures [set] result == nil ==> db == old(db)[bytes(key) := bytes(value)]
+//@ ensures [noset] result != nil ==> db == old(db)
+//@ ensures [ok] store_ok && len(key) > 0 ==> result == nil
+
+//@ func (*Store).Fetch$1$1
+//@ modifies value
+//@ ensures [copied] result == nil && bytes(value) == bytes(val) && fresh(value)
+
+//@ func (*Store).Fetch$1
+//@ modifies value
+//@ ensures [hit] result == nil ==> bytes(key) in db && bytes(value) == db[bytes(key)] && fresh(value)
+//@ ensures [miss] result != nil && errstr(result) == "not found" ==> !(bytes(key) in db)
+//@ ensures [ok] store_ok ==> ((result == nil) <==> (bytes(key) in db)) && (result != nil ==> errstr(result) == "not found")
+
+//@ func NewStore$1
+
+//@ func NewStore
+//@ ensures [opened] result1 == nil ==> result0 != nil
